@@ -97,6 +97,20 @@ def judge(chk, cid, td, text, res):
             problems.append("self type %s != %s" % (it["self"], self_ty))
         tr = M.nows(it["trait"]) if it.get("trait") else None
         got_keys[(tr, frozenset(ms(it["where"]).items()))] += 1
+        # helper impls nested in fn bodies (the Debug wrapper of a `method(..)` field) must reproduce the type's
+        # parameters and where-clause too, and add nothing
+        for nh in it.get("nested", []):
+            if "hdr_error" in nh:
+                problems.append("nested impl header does not parse: %s (%s)" % (nh["hdr_error"], nh.get("hdr")))
+                continue
+            import re as _re
+            if not _re.search(r"(?<![A-Za-z0-9_])%s(?![A-Za-z0-9_])" % _re.escape(td.name), nh.get("self", "")):
+                # a helper that does not mention the type (the raw-string key of the map form) has no generics to honour
+                continue
+            if [M.nows(x) for x in nh["params"]] != hp:
+                problems.append("generic parameters of the nested helper impl are %s, expected %s" % (nh["params"], M.header_params(td)))
+            if ms(nh["where"]) != ms(user_where):
+                problems.append("where-clause of the nested helper impl is %s, expected the type's own %s" % (nh["where"], user_where))
     want_keys = collections.Counter()
     for tr, preds in want:
         want_keys[(M.nows(tr) if tr else None, frozenset(ms(user_where + preds).items()))] += 1
